@@ -1,6 +1,6 @@
 #!/bin/bash
 # Build the Coq development (full .vo build), extract and compile the back-end-X driver.
-cd /verif || exit 2
+cd "${VERIF_ROOT:-/verif}" || exit 2
 mkdir -p build evidence replays
 cd coq && coq_makefile -f _CoqProject -o Makefile >/dev/null && cd ..
 exec ./check setup
